@@ -218,6 +218,9 @@ func (o *vfObj) WriteAt(p []byte, off int64) (int, error) {
 	}
 	o.file.mu.Lock()
 	defer o.file.mu.Unlock()
+	if len(p) == 0 {
+		return 0, nil // like pwrite: a zero-length write does not extend the file
+	}
 	if need := int(off) + len(p); need > len(o.file.data) {
 		o.file.data = append(o.file.data, make([]byte, need-len(o.file.data))...)
 	}
